@@ -4,7 +4,7 @@
   for) that turns the safety invariant into "every maximal run completes every call with the
   caller's own reply".
 -/
-import PyIpmi.Lemmas.ThreadsStep
+import PyIpmi.Lemmas.ThreadsClose
 namespace PyIpmi.Threads
 open PyIpmi.Spec.Threads
 
@@ -437,16 +437,24 @@ theorem step_acc {c : Cfg} {s s' : Sys} {t : Nat} (ha : Acc c s) (ht : Tear s) (
           rw [e1]; exact e3
       · exact ha.cnt _ _ _ hb hp hk
 
-/-- All three invariants along any schedule. -/
-theorem run_all {c : Cfg} {s : Sys} (hi : Inv s) (ht : Tear s) (ha : Acc c s) (sched : List Nat) :
-    Inv (run s sched) ∧ Tear (run s sched) ∧ Acc c (run s sched) := by
+theorem step_close {s s' : Sys} {t : Nat} (hi : Inv s) (ht : Tear s) (hc : Close s) (h : step s t = some s') :
+    Close s' := by
+  unfold step at h
+  cases hget : s.thr[t]? with
+  | none => simp [hget] at h
+  | some th => simp [hget] at h; exact stepThr_close hi ht hc hget h
+
+/-- All four invariants along any schedule. -/
+theorem run_all {c : Cfg} {s : Sys} (hi : Inv s) (ht : Tear s) (hc : Close s) (ha : Acc c s) (sched : List Nat) :
+    Inv (run s sched) ∧ Tear (run s sched) ∧ Close (run s sched) ∧ Acc c (run s sched) := by
   induction sched generalizing s with
-  | nil => exact ⟨hi, ht, ha⟩
+  | nil => exact ⟨hi, ht, hc, ha⟩
   | cons t rest ih =>
     simp only [run, List.foldl_cons]
     cases hs : step s t with
-    | none => exact ih hi ht ha
-    | some s' => exact ih (step_inv hi ht hs).1 (step_inv hi ht hs).2 (step_acc ha ht hs)
+    | none => exact ih hi ht hc ha
+    | some s' =>
+      exact ih (step_inv hi ht hs).1 (step_inv hi ht hs).2 (step_close hi ht hc hs) (step_acc ha ht hs)
 
 theorem init_get_app {c : Cfg} {t : Nat} {p : Nat × Nat} (hp : c.threads[t]? = some p) :
     (init c).thr[t]? = some (initThr c.closer t p) := by
@@ -460,14 +468,19 @@ theorem init_get_app {c : Cfg} {t : Nat} {p : Nat × Nat} (hp : c.threads[t]? = 
   simp [init, List.getElem?_append, hlt, hg]
 
 /-- In a state where no thread can move, every thread is finished (the keep-alive loop: finished or
-asleep for good), each call made returned the reply to the datagram that same thread transmitted, and
-every application thread other than the closing one has made all the calls it was asked to make. -/
-theorem terminal_complete {c : Cfg} {s : Sys} (hi : Inv s) (ht : Tear s) (ha : Acc c s)
+asleep for good), each call made returned the reply to the datagram that same thread transmitted,
+every application thread other than the closing one has made all the calls it was asked to make, and
+if a thread closes the session: Close Session is on the wire, the session is deactivated and every
+thread — the keep-alive too — has terminated. -/
+theorem terminal_complete {c : Cfg} {s : Sys} (hi : Inv s) (ht : Tear s) (hc : Close s) (ha : Acc c s)
     (hterm : ∀ t, step s t = none) :
     (∀ (t : Nat) (th : Thr), s.thr[t]? = some th → parked s th ∧
       ∀ r ∈ th.results, ∃ n, r = .ok n n ∧ sentBy s.wireChron t n = true) ∧
     (∀ (t : Nat) (p : Nat × Nat), c.threads[t]? = some p → c.closer ≠ some t →
-      ∃ th, s.thr[t]? = some th ∧ th.pc = .done ∧ th.results.length = p.1) := by
+      ∃ th, s.thr[t]? = some th ∧ th.pc = .done ∧ th.results.length = p.1) ∧
+    (∀ (t : Nat) (p : Nat × Nat), c.threads[t]? = some p → c.closer = some t →
+      s.activated = false ∧ (monitor s.wireChron).closed = true ∧
+      ∀ (t' : Nat) (th' : Thr), s.thr[t']? = some th' → th'.pc = .done) := by
   have hpark : ∀ (t : Nat) (th : Thr), s.thr[t]? = some th → parked s th := by
     intro t th hget
     apply Classical.byContradiction
@@ -475,12 +488,32 @@ theorem terminal_complete {c : Cfg} {s : Sys} (hi : Inv s) (ht : Tear s) (ha : A
     obtain ⟨t1, h1⟩ := deadlock_free hi ht hget hnp
     rw [hterm t1] at h1
     cases h1
-  constructor
+  refine ⟨?_, ?_, ?_⟩
   · intro t th hget
     refine ⟨hpark t th hget, ?_⟩
     intro r hr
     obtain ⟨n, h1, h2⟩ := hi.res t _ hget r hr
     exact ⟨n, h1, by rw [Sys.wireChron, sentBy_reverse]; exact h2⟩
+  rotate_left
+  · intro t p hp hcl
+    have hk := ha.kinds t
+    rw [init_get_app hp] at hk
+    cases hget : s.thr[t]? with
+    | none => rw [hget] at hk; cases hk
+    | some th =>
+      rw [hget] at hk
+      simp only [Option.map_some, Option.some.injEq] at hk
+      have hw : th.kind = .closer := by
+        rw [hk]; simp only [initThr]; rw [if_pos hcl]
+      have hd : th.pc = .done := by
+        rcases hpark t th hget with h | ⟨h, _⟩
+        · exact h
+        · have := ht.kaPc _ _ hget h
+          rw [hw] at this; cases this
+      have hact := hc.doneDeact _ _ hget hw hd
+      refine ⟨hact, ?_, ht.deact hact⟩
+      rw [Sys.wireChron, ← monOf_eq_monitor]
+      exact hc.deactClosed hact
   · intro t p hp hnc
     have hk := ha.kinds t
     rw [init_get_app hp] at hk
